@@ -10,7 +10,12 @@ CTX_PROGS = ['a.$substringBefore("-")', 'list.s.$substringAfter("-")', '$pad(?, 
              'a.$substringBefore($$.b.c.$substringBefore("z"))', 'nums^(>$)', 'list{s: $count($)}', '$ ~> |list|{"z": 1}|', '$.list[0] ~> |$|{"s": "changed"}, ["q"]|', '/a(b)/("xaby").groups',
              '$replace(a, /-/, "+")', 'a ~> $replace("-", "+", 1)', 'a ~> $replace("-", "+")', 'a ~> $substring(1, 3)', 'nums ~> $reduce(function($p,$q){$p+$q}, 100)',
              '($f := function($a,$b,$c,$d){[$a,$b,$c,$d]}; a ~> $f(10, 20, 30))', '($f := function($a,$b,$c,$d,$e,$g){$a & $b & $c & $d & $e & $g}; a ~> $f(1,2,3,4,5))',
-             '($f := function($a,$b,$c,$d,$e,$g,$h){$a & $g & $h}; a ~> $f(1,2,3,4,5,6))', '($f := function($a,$b,$c,$d,$e,$g,$h,$i){$a & $h & $i}; a ~> $f(1,2,3,4,5,6,7))', 'a ~> $pad(20, "#") ~> $replace("#", "=", 2)', '( $f := function($x){$x * 2}; nums.$f($) )', '$reduce(nums, function($p,$q){$p + $q})', '$string($) & $string($)', '$keys($)', '$each($, function($v,$k){$k})', '$now() = $now()']
+             '($f := function($a,$b,$c,$d,$e,$g,$h){$a & $g & $h}; a ~> $f(1,2,3,4,5,6))', '($f := function($a,$b,$c,$d,$e,$g,$h,$i){$a & $h & $i}; a ~> $f(1,2,3,4,5,6,7))', 'a ~> $pad(20, "#") ~> $replace("#", "=", 2)', '( $f := function($x){$x * 2}; nums.$f($) )', '$reduce(nums, function($p,$q){$p + $q})', '$string($) & $string($)', '$keys($)',
+             # partial applications of context-defaulting built-ins, and the same built-ins invoked through ~> with a bare function (no call node)
+             '$substringBefore(?, "-")(a)', '$substringAfter(?, "-")(a)', '($p := $substringBefore(?, "-"); list.s.$p($))', '$contains(?, "-")(a)', '$pad(?, 7, "*")(a)', '$split(?, "-")(a)', '$length(?)(a)',
+             'a.("-" ~> $substringBefore)', 'a.("-" ~> $substringAfter)', '"-" ~> $substringBefore', '"-" ~> $substringAfter', 'b.c.("z" ~> $substringBefore)', 'a.("-" ~> $contains)', 'a.("-" ~> $split)', 'a.(7 ~> $pad)',
+             'list.s.("-" ~> $substringBefore)', 'a ~> $uppercase', 'a ~> $length', 'a.$uppercase()', 'list.s.$length()', 'a.($f := $substringBefore; "-" ~> $f)', 'nums.($string ~> $length)', 'a.($uppercase ~> $length)()',
+             '$map(list.s, $substringBefore(?, "-"))', '$map(list.s, $length)', '$filter(list.s, $contains(?, "-"))', 'a.$substringBefore("-").$length()', '$each($, function($v,$k){$k})', '$now() = $now()']
 
 def cases(tier, seed):
     rng = random.Random(seed)
